@@ -111,6 +111,14 @@ Section Solver.
                 end in
     mk_solv (v_o s) (v_args s) g' (v_nctor s) log2.
 
+  (* self._integrator.options = self._options (no reset): the setter built a
+     new options object, the integrator is handed the new one *)
+  Definition assign_opts (s : solv) : solv :=
+    let g := v_int s in
+    mk_solv (v_o s) (v_args s)
+            (mk_integ (g_id g) (g_m g) (v_o s) (g_set g) (g_t g) (g_x g))
+            (v_nctor s) (EOpt (g_id g) (ivals (g_m g) (v_o s)) :: v_log s).
+
   (* _apply_options(set(keys)) called by the setter *)
   Definition apply_keys (s : solv) (keys : list nat) : solv :=
     match keys with
@@ -118,7 +126,7 @@ Section Solver.
     | _ =>
         if existsb (Nat.eqb 0) keys then rebuild s
         else if existsb (supports (g_m (v_int s))) keys then reset_hard s
-        else s
+        else assign_opts s
     end.
 
   Definition with_o (s : solv) (o : odict) : solv :=
